@@ -23,11 +23,15 @@ pub fn to_listing(
 
             let mut data = vec![];
             for offset in &offsets {
-                for segment in ctx.segments().values() {
-                    if segment.range().start <= offset.pc.start
-                        && segment.range().end >= offset.pc.end
+                // The bytes are in the segment they were emitted to. The source map holds target addresses, whereas the
+                // segment's data is indexed by the addresses the bytes were emitted at.
+                if let Some(segment) = ctx.segments().get(&offset.segment) {
+                    let emit_start = offset.pc.start as i64 - segment.target_offset();
+                    let emit_end = offset.pc.end as i64 - segment.target_offset();
+                    if segment.range().start as i64 <= emit_start
+                        && segment.range().end as i64 >= emit_end
                     {
-                        let mut start = offset.pc.start - segment.range().start;
+                        let mut start = emit_start as usize - segment.range().start;
                         let end = start + (offset.pc.end - offset.pc.start);
 
                         let mut pc = offset.pc.start;
@@ -36,7 +40,6 @@ pub fn to_listing(
                             start += 1;
                             pc += 1;
                         }
-                        break;
                     }
                 }
             }
